@@ -302,6 +302,9 @@ def evaluate(case, lib, fn=None):
         # members outside the stated schema: a version of the library may give them a meaning of its own and refuse - the stated
         # rule only says when an offer must NOT be accepted
         model = models.Verdict(models.GREY, None, (model.why or "") + " (extra members present: acceptance not demanded)")
+    elif case.get("extras") and model.v == models.REJECT:
+        # ... and a version that gives such a member a format may name its own reason first: which error is not judged
+        model = models.Verdict(models.REJECT, None, model.why, model.counted, model.grey_counted)
     mutated = boundary.fingerprint([trusted, new]) != before
     return model, failed, out, mutated
 
